@@ -162,34 +162,23 @@ def errName : Err → String
 
 def showRoute (i j : Nat) : String := s!"{i}.{j}"
 
-def render (vh : Int) (one : Option Nat) (all : List Nat) : String :=
+def render (a : Int × Option Nat × List Nat) : String :=
+  let (vh, one, all) := a
   if vh < 0 then "ok -1 none -" else
   let i := vh.toNat
   let o := match one with | some j => showRoute i j | none => "none"
-  let a := if all.isEmpty then "-" else joinWith "," (all.map (showRoute i))
-  s!"ok {vh} {o} {a}"
+  let l := if all.isEmpty then "-" else joinWith "," (all.map (showRoute i))
+  s!"ok {vh} {o} {l}"
 
-/-- all rules of every virtual host, or the first `NewVirtualHostImpl` error (only used when `build` succeeded) -/
-def allRules (cfg : Config) : List (List Rule) :=
-  cfg.map (fun vh => match mkRules vh.routers with | .ok rs => rs | .error _ => [])
-
-/-- the model's answer -/
+/-- the model's answer: `NewRouters` (with the executable sorter) then `MatchRoute` / `MatchAllRoutes` -/
 def model (c : Case) : String :=
   match build isort c.cfg with
   | .error e => errName e
-  | .ok t =>
-    let req := c.req
-    let vh := findVirtualHost t (req.var Gen.Route.varHost)
-    let rules := (allRules c.cfg).getD vh.toNat []
-    render vh (selectRoute c.rx req rules) (allRoutes c.rx req rules)
+  | .ok t => render (answer c.rx t c.cfg c.req)
 
-/-- the declarative reference's answer for a configuration that MOSN accepted -/
-def spec (c : Case) : String :=
-  let req := c.req
-  let vh := Spec.vhost c.cfg (req.var ['x', '-', 'm', 'o', 's', 'n', '-', 'h', 'o', 's', 't'])
-  let ms := match c.cfg[vh.toNat]? with | some v => v.routers | none => []
-  let all := (List.range ms.length).filter (fun j => match ms[j]? with | some m => Spec.ruleHolds c.rx req m | none => false)
-  render vh (Spec.route c.rx req ms) all
+/-- the declarative reference's answer for a configuration that MOSN accepted (`Props.C04.answer_refines`:
+the model's answer always equals it) -/
+def spec (c : Case) : String := render (Spec.answer c.rx c.cfg c.req)
 
 def run (caseToks impl : List String) : String :=
   match caseToks with
